@@ -7,7 +7,7 @@ hooks_commit = subprocess.run(["git", "-C", "/repo", "log", "--format=%H", "--gr
 MC = "every trace is a trace of the real object (fork = Clone, or replay from a fresh object); states/transitions are counted by the explorer; bounds and caps are reported in the evidence"
 CHECKS = {
  "C01": ("exploration", "bounded-exhaustive input enumeration x all levels x {raw,zlib} on the real one-shot functions; three-party decode oracle (crate, reference decoder, system zlib)",
-         "Every element of the stated finite input x level space (all strings over small alphabets, every equality pattern, threshold shapes up to ~200 KB) is compressed by the real code and decoded by the crate, an independent bit-level reference decoder and system zlib; inside that space the round trip is decided completely. Right level: the property quantifies over inputs and levels only.",
+         "Every element of the stated finite input x level space (all strings over small alphabets, every equality pattern, threshold shapes up to ~200 KB, inputs whose own encoding uses distance codes of every length 1..15, first-block ends at every offset around the encoder's 31 KiB / LZ-buffer cuts) is compressed by the real code and decoded by the crate, an independent bit-level reference decoder and system zlib; inside that space the round trip is decided completely. Right level: the property quantifies over inputs and levels only.",
          "5 C01", "reference decoder (mc/src/refmodel.rs) and system zlib 1.2.13 are correct RFC 1951 decoders; inputs outside the enumerated alphabets/shapes are not covered"),
  "C02": ("model_checking", "explicit exploration of call schedules on the real CompressorOxide (full depth on small inputs, deviation-bounded search around constant policies on 66-200 KB inputs; reset() is one of the actions and starts the next stream on the recycled object; window-wrap, mirror-probe and Full-flush-after-wrap input families), terminal oracle = strict reference decoder + zlib",
          "All schedules over the chunk x capacity x flush alphabet up to the stated depth, and all single deviations (at every / every n-th call index) from 8 background policies incl. tiny-chunk and tiny-buffer ones, are executed on the real compressor through compress, compress_to_output and deflate; counts and status are checked per call and the concatenated output must be one stream decoding to the declared input. " + MC,
@@ -18,8 +18,8 @@ CHECKS = {
  "C04": ("fault_enumeration", "exhaustive short-string trie (all byte strings <= 2/3 bytes) and exhaustive single-fault mutation of a valid corpus, each under several chunkings and memory models, judged by the reference decoder in the same memory model",
          "Every byte string up to the stated length and every single bit flip / truncation / byte insertion / deletion of the corpus streams, plus targeted rule violations, is decoded by the real decoder: Done is accepted only if the consumed bytes are Complete for the reference with the same output; proper prefixes of triangulated valid streams must never be rejected as corrupt.",
          "5 C04", "'proper prefix' is asserted only by construction (truncation of a stream all three parties accept, or a trie node with a Complete descendant)"),
- "C05": ("model_checking", "full-depth exploration of call histories on one real DecompressorOxide with flags, slice and position changing between calls (depth 2 over the full 128 flag sets x 14 lengths x positions x budgets product, depth 3 reduced), both build profiles; watchdog for hangs",
-         "Every two-call history first-call x (128 flag sets x 14 slice lengths x <=6 positions x 3 budgets x 6 inputs) and a reduced third call is executed on a clone of the real decoder: no panic, no hang, counts within bounds, unusable geometry = BadParam with the complete-state fingerprint unchanged, Failed and Adler32Mismatch sticky. " + MC,
+ "C05": ("model_checking", "full-depth exploration of call histories on one real DecompressorOxide with flags, slice and position changing between calls (depth 2 over the full 128 flag sets x 14 lengths x positions x budgets product, depth 3 reduced; plus every cut 1..96 of every pool stream as a start state), both build profiles; watchdog for hangs",
+         "Every two-call history first-call (menu cuts, and every cut of the first 96 bytes with a reduced second-call menu) x (128 flag sets x 14 slice lengths x <=6 positions x 3 budgets x 6 inputs) and a reduced third call is executed on a clone of the real decoder: no panic, no hang, counts within bounds, unusable geometry = BadParam with the complete-state fingerprint unchanged, Failed and Adler32Mismatch sticky. " + MC,
          "5 C05", "a call that does not return within 20 s is a hang; output buffer contents are never branched on by the decoder (shared scratch buffer)"),
  "C06": ("exploration", "exhaustive enumeration of final-block variants x trailing strings x chunkings x 15 entry points (incl. mz_inflate, mz_uncompress, tinfl_* on guard-paged buffers, decoder objects reused after a complete / abandoned / failed stream, Finish-mode inflate)",
          "For every stream whose final block ends at each bit offset, every trailing string of length 0..16,17,32,64 in three fills, one-call / bytewise / every cut around the end, the total consumed count must equal the generator's exact encoded length through every entry point, and a call after the end must consume nothing.",
@@ -48,7 +48,7 @@ CHECKS = {
  "C14": ("model_checking", "full-depth exploration of the 61-action alphabet (chunk x room x flush, plus reset()) on the real CompressorOxide through deflate(); protocol model per transition; Finish-loop termination from every cut state",
          "Every action sequence to the stated depth is executed; counts, empty-output refusal without state change (fingerprint), progress, Finish returns only at StreamEnd or with a full buffer, StreamEnd only after Finish with a complete decodable stream, stability after the end, non-Finish after Finish = error without side effects. " + MC,
          "5 C14", "stateless exploration (no dedup); inputs up to 600 bytes at full depth, one 70 KB input at depth 2"),
- "C15": ("exploration", "exhaustive sweep n (0..300, every threshold +-1, multiples of 31744/65536, up to 1-4 MiB) x 9 content classes x levels -1..10 x 5 strategies through mz_deflate(MZ_FINISH) with avail_out = bound, with_params one-shot and mz_compress2",
+ "C15": ("exploration", "exhaustive sweep n (0..300, every threshold +-1, multiples of 31744/65536, up to 1-4 MiB) x 13 content classes x levels -1..10 x 5 strategies, plus a period sweep (1041 periods around the encoder's block cut, trigram-free 9-bit literals, lazy levels, MZ_FIXED), through mz_deflate(MZ_FINISH) with avail_out = bound, with_params one-shot and mz_compress2",
          "For every cell the produced length must not exceed mz_deflateBound(n) and mz_compress2 with a compressBound destination must succeed; slack per content/strategy is recorded.",
          "5 C15", "content classes are adversarial by construction (9-bit literals, sparse matches, planted repeats) but finite"),
  "C16": ("exploration", "exhaustive enumeration of buffers x start values x split points against byte/bit-at-a-time definitions, in both scalar and simd builds (and a block-boundary build for the decoder's running checksum at BlockBoundary returns); running checksums monitored at every call boundary of the decoder schedules, mz_stream schedules and the C02 compressor exploration",
